@@ -87,11 +87,19 @@ static __always_inline int token_bucket_check(struct token_bucket *tb, __u32 pkt
 
 	/* Add tokens, capped at burst size */
 	tb->tokens += new_tokens;
-	if (tb->tokens > tb->burst_bytes)
+	if (tb->tokens >= tb->burst_bytes) {
+		/* Bucket full: nothing accrues beyond the burst, restart the clock */
 		tb->tokens = tb->burst_bytes;
-
-	/* Update timestamp */
-	tb->last_update = now;
+		tb->last_update = now;
+	} else if (new_tokens > 0) {
+		/* Consume only the time these whole tokens took to accrue (rounded
+		 * up, so the bucket never over-credits). Setting the timestamp to
+		 * 'now' discarded the fraction of a token on every packet: a
+		 * subscriber whose packets arrive faster than one byte accrues was
+		 * never credited again. */
+		__u64 bytes_per_sec = tb->rate_bps / 8;
+		tb->last_update += (new_tokens * 1000000000ULL + bytes_per_sec - 1) / bytes_per_sec;
+	}
 
 	/* Check if we have enough tokens for this packet */
 	tokens_needed = pkt_len;
